@@ -644,3 +644,116 @@ func vh_resp_schema_event() {
 	}
 	vObserve("kind", kind)
 }
+
+// ---- every cell of every row as seen through Scan / Scanner / MapScan / SliceMap ----
+//
+// A rows body with the columns (b blob, t text, i int) and 1..3 rows of arbitrary content (blob and
+// text of 0..2 bytes or null, any int or null) is iterated to its end; afterwards EVERY row the
+// consumer was given must still hold what the frame encodes for that row (a consumer that hands out
+// a view of a buffer it reuses for the next row would show the last row everywhere).
+type vCellRow struct {
+	b     []byte
+	bNull bool
+	t     []byte
+	tNull bool
+	i     int32
+	iNull bool
+}
+
+func vCellsIter(rows []vCellRow) *Iter {
+	e := &vEnc{}
+	for _, r := range rows {
+		e.bytes(r.b, r.bNull)
+		e.bytes(r.t, r.tNull)
+		e.bytes(refBE(int64(r.i), 4), r.iNull)
+	}
+	f := &framer{proto: 4, buf: e.b, header: &frameHeader{version: 0x84, op: opResult}}
+	cols := []ColumnInfo{
+		{Keyspace: "k", Table: "tb", Name: "b", TypeInfo: NativeType{proto: 4, typ: TypeBlob}},
+		{Keyspace: "k", Table: "tb", Name: "t", TypeInfo: NativeType{proto: 4, typ: TypeVarchar}},
+		{Keyspace: "k", Table: "tb", Name: "i", TypeInfo: NativeType{proto: 4, typ: TypeInt}},
+	}
+	return &Iter{framer: f, numRows: len(rows), meta: resultMetadata{columns: cols, colCount: 3, actualColCount: 3}}
+}
+
+func vCellEq(r vCellRow, b []byte, t string, i int) bool {
+	wb, wt, wi := r.b, string(r.t), int(r.i)
+	if r.bNull {
+		wb = nil
+	}
+	if r.tNull {
+		wt = ""
+	}
+	if r.iNull {
+		wi = 0
+	}
+	return refBytesSame(b, wb) && t == wt && i == wi
+}
+
+func vh_rows_cells() {
+	n := 1 + vChoose("rows", vBound("max_rows"))
+	rows := make([]vCellRow, n)
+	for k := range rows {
+		rows[k] = vCellRow{b: vBytes("b", 2), bNull: vBool("b_null"), t: vBytes("t", 2), tNull: vBool("t_null"), i: vI32("i"), iNull: vBool("i_null")}
+		for _, ch := range rows[k].t {
+			vAssume(ch < 0x80)
+		}
+		_ = vConcrete(len(rows[k].b))
+		_ = vConcrete(len(rows[k].t))
+	}
+	it := vCellsIter(rows)
+	type got struct {
+		b []byte
+		t string
+		i int
+	}
+	var out []got
+	switch vBound("consumer") {
+	case 0: // Scan into fresh destinations
+		for k := 0; k <= n; k++ {
+			var g got
+			if !it.Scan(&g.b, &g.t, &g.i) {
+				break
+			}
+			out = append(out, g)
+		}
+	case 1: // Scanner
+		sc := it.Scanner()
+		for k := 0; k <= n && sc.Next(); k++ {
+			var g got
+			if sc.Scan(&g.b, &g.t, &g.i) != nil {
+				break
+			}
+			out = append(out, g)
+		}
+	case 2: // MapScan
+		for k := 0; k <= n; k++ {
+			m := map[string]interface{}{}
+			if !it.MapScan(m) {
+				break
+			}
+			b, _ := m["b"].([]byte)
+			t, _ := m["t"].(string)
+			i, _ := m["i"].(int)
+			out = append(out, got{b, t, i})
+		}
+	default: // SliceMap
+		ms, err := it.SliceMap()
+		vAssert(err == nil, "C04/cells/no-error-for-a-well-formed-body")
+		for _, m := range ms {
+			b, _ := m["b"].([]byte)
+			t, _ := m["t"].(string)
+			i, _ := m["i"].(int)
+			out = append(out, got{b, t, i})
+		}
+	}
+	vAssert(len(out) == n, "C04/cells/every-row-is-delivered")
+	ok := len(out) == n
+	for k := 0; ok && k < n; k++ {
+		ok = vCellEq(rows[k], out[k].b, out[k].t, out[k].i)
+	}
+	vAssert(ok, "C04/cells/every-row-holds-what-the-frame-encodes-after-the-iteration")
+	vAssert(len(it.framer.buf) == 0, "C04/cells/body-consumed-exactly")
+	vAssert(it.Close() == nil, "C04/cells/no-error-for-a-well-formed-body")
+	vObserve("rows", len(out))
+}
